@@ -71,7 +71,7 @@ ALL_HOSTILE = (["type:" + n for n in H_TYPES] + ["trait:" + n for n in H_TRAITS 
 @st.composite
 def cases(draw, tier="quick"):
     spec = draw(S.enum_specs(PROFILE))
-    cfg = draw(S.configs(spec, p_on=0.55, p_vis=0.0))
+    cfg = draw(S.configs(spec, p_on=[0.2, 0.55, 0.55, 0.85], p_vis=0.0))
     ctxs = draw(st.lists(st.sampled_from(["hostile", "no_prelude", "fn_body", "no_std_lib", "hostile_all", "hostile"]),
                          min_size=2, max_size=4, unique=True))
     hostile = draw(st.lists(st.sampled_from(ALL_HOSTILE), min_size=1, max_size=12, unique=True))
